@@ -48,21 +48,21 @@ CFG = {
     "stages": ["go:gen", "go:impl", "lean:judge"],
     "theorems": [T + n for n in ["C01_pointset", "C01_closed", "C01_empty_only_if_null", "C01_xor_defect_before_fix", "C01_pointset_natural", "C01_inclusion_exclusion_pointwise", "member_eq_memberNat",
                                  "construct_pointset", "boundsIntersection_pointset", "not_both_inside", "insideRing_rect", "inBox_of_inside", "inside_const", "edge_lemma", "member_const", "sample_cell_const", "slab_cell_free", "slabCell_sound",
-                                 "C01_certificate_sound", "C01_certificate_exact", "C01_certificate_coreSpec_case", "slab_sound", "nearSeg_convex", "chain_pairwise", "split_at"]],
+                                 "C01_certificate_sound", "C01_certificate_exact", "C01_certificate_coreSpec_case", "C01_inclusion_exclusion_cells", "slab_sound", "nearSeg_convex", "chain_pairwise", "split_at"]],
     "level": "proof",
     "trusted_base": [
         "Lean 4.33.0 kernel; axioms of every theorem printed by #print axioms must be within {propext, Classical.choice, Quot.sound}",
-        "the sweep-line core of github.com/ctessum/polyclip-go v1.1.0 (everything in clipper.compute after its two trivial-case tests) is a PARAMETER of the model with the explicit contract hypothesis CoreSpec; it is exercised and checked against the exact Rat sample-point oracle on every generated case, not proved",
+        "the sweep-line core of github.com/ctessum/polyclip-go v1.1.0 (everything in clipper.compute after its two trivial-case tests) is a PARAMETER of the model with the explicit contract hypothesis CoreSpec; it is not proved for all inputs, but on every generated case the implementation's answer is passed through the certificate checker certCheck (exact Rat), which is PROVED sound (C01_certificate_sound: accepted => truth table at every point with clear margin 1e-6*extent from the input edges; margin 0 => every off-boundary point)",
         "model lean/GeomV/C01/Model.lean (geom glue, *Bounds shortcuts, polyclip trivial-case tables) is tied to /repo/{polygon,multipolygon,bounds}.go and polyclip-go@v1.1.0/clipper.go by the correspondence run on every check (exact comparison of every result the model determines)",
-        "IEEE-754 rounding: operands are integer-grid (exact); the clipper's intersection points are floats, compared through sample points with a 1e-6 margin from every input edge",
+        "IEEE-754 rounding: operands are dyadic-grid (exact); the clipper's intersection points are floats: sliver cells between an input edge and its rounded copy are accepted only when all four corners lie within 1e-6*extent of ONE input edge (convexity of the margin zone proved: nearSeg_convex)",
         "harness/cmd/c01 + lean driver + lib/vcheck.py transport inputs faithfully",
     ],
     "assumptions": ["finite coordinates (no NaN/Inf); membership is the even-odd rule over all rings of all member polygons (what geom.pointInPolygonal implements)"],
     "rule": "integer-grid operand pairs (star-shaped / rectilinear / inscribed-convex / rectangular shells, 0-2 holes strictly inside, multi-polygons of 1-3 disjoint members incl. a member inside another's hole, boxes) in forced configuration classes "
-            "(overlapping, nested, disjoint-with-overlapping-boxes, box-disjoint, box-separated along exactly one axis, identical boxes) x 9 receiver/argument type pairs x 4 operations + area identities; "
+            "(overlapping, nested, disjoint-with-overlapping-boxes, box-disjoint, box-separated along exactly one axis, identical boxes) x 9 receiver/argument type pairs x 4 operations + area identities; multi-polygons with an empty member at a random position; a result ring of >128 (thorough >1024) vertices; concurrent lines (cc: the case recomputed by 8 goroutines while 8 others run the operations on unrelated operands; any answer that differs from the sequential one is judged); "
             "40% of the cases at coordinate scales 2^-20/2^-24/2^-30/2^+20 (dyadic: exact), multi-call histories on one line with operands overwritten in place, operands over one flat backing array and compared with a snapshot after each call, size-threshold cases (vertex/ring/member counts beyond 64/128/1024; lines of 1024..3000 vertices); distinct = distinct input line; non-trivial = verdict class not '-outside-quantifier' (invalid or non-general-position corpus cases, compared with the model only)",
     "trivial_class": r"outside-quantifier$",
     "pregen": pin_polyclip,
     "timeout": {"quick": 600, "thorough": 3000},
-    "explanation": "partial: glue, both trivial-case tables and all *Bounds shortcuts are proved for all inputs conditional on CoreSpec; the sweep-line core is exercised (CoreSpec checked per case by an exact oracle), not proved",
+    "explanation": "partial: glue, both trivial-case tables and all *Bounds shortcuts are proved for all inputs conditional on CoreSpec; the sweep-line core is not proved for all inputs, but every generated case is certified by a proved-sound per-case checker (a passing case is a proof of the contract for that case)",
 }
